@@ -34,4 +34,38 @@ def httpSrc (rej : List σ) (id : σ) (rs : Option Hash) : Go.M (Ctx σ) Unit (O
     (fun (st, tr) => .done () (⟨st.book.del id, st.active⟩, tr))
     ()
 
+/-! ## file_system -/
+
+/-- the translated `ruleSetDeleted` for file `name` -/
+def fsDeletedSrc (rej : List σ) (name : σ) : Go.M (Ctx σ) Unit (Option FileState) :=
+  Src.FileSystem.ruleSetDeleted (H := Hash) (RS := Hash) none (Go.pure (none, none)) (fun _ => false) (fun _ => false)
+    (fun c => .done (c.1.book.get name, (c.1.book.get name).isSome) c) (fun _ => 0) (fun _ => false)
+    (fun _ => Go.pure none) (fun _ => Go.pure none)
+    (Go.map (fun e => e.map fun _ => FileState.invalid) (processor rej (.deleted name)))
+    (Go.pure ()) (fun (st, tr) => .done () (⟨st.book.del name, st.active⟩, tr)) ()
+
+/-- what `loadRuleSet` returns for a file in the given state: the rule set (its digest) or an error; an error is
+represented by the state that caused it -/
+def loadOf : FileState → Option Hash × Option FileState
+  | .valid h => (some h, none)
+  | f => (none, some f)
+
+/-- `len(hash)`: 0 for no digest and for the empty digest (digest 0 of the model) -/
+def digestLen : Option Hash → Int
+  | none => 0
+  | some d => if d = 0 then 0 else 1
+
+/-- the translated `ruleSetCreatedOrUpdated` for file `name` found in state `file`; the hand-over to
+`ruleSetDeleted` is the translation of that function -/
+def fsChangedSrc (rej : List σ) (name : σ) (file : FileState) : Go.M (Ctx σ) Unit (Option FileState) :=
+  let h := match file with | .valid h => h | _ => 0
+  Src.FileSystemChanged.ruleSetCreatedOrUpdated (H := Hash) (RS := Hash) (fsDeletedSrc rej name) none
+    (Go.pure (loadOf file)) (· == .empty) (· == .missing)
+    (fun c => .done (c.1.book.get name, (c.1.book.get name).isSome) c) digestLen (fun h' => h' == some h)
+    (fun rs => Go.map (fun e => e.map fun _ => FileState.invalid) (processor rej (.created name (rs.getD 0))))
+    (fun rs => Go.map (fun e => e.map fun _ => FileState.invalid) (processor rej (.updated name (rs.getD 0))))
+    (Go.map (fun e => e.map fun _ => FileState.invalid) (processor rej (.deleted name)))
+    (fun (st, tr) => .done () (⟨st.book.put name h, st.active⟩, tr))
+    (fun (st, tr) => .done () (⟨st.book.del name, st.active⟩, tr)) ()
+
 end Heimdall.Prov.SrcTie
